@@ -318,6 +318,11 @@ fn safe_positions(seg: &str) -> Vec<usize> {
     v
 }
 
+const NON_XML_BLANKS: &[&str] = &[
+    "\u{a0}", "\u{85}", "\u{1680}", "\u{2000}", "\u{2003}", "\u{200a}", "\u{2028}", "\u{2029}", "\u{202f}", "\u{205f}", "\u{3000}", "\u{feff}", "\u{200b}", "\u{b}", "\u{c}", "&#160;", "&#xA0;", "&#x3000;",
+    "&#8232;", "&#x85;", "\u{a0}\u{a0} ", " \u{3000}\n", "&#160; ", "\u{2003}&#32;",
+];
+
 fn mutate_type(r: &mut Report, t: &XmlType, g: &mut Rng, sch: &HashMap<&'static str, &'static [(&'static str, &'static str)]>, seed: u64, budget: usize) {
     let Some((bytes, want)) = roundtrip(r, t, seed, Presence::Full) else { return };
     let Ok(doc) = String::from_utf8(bytes.clone()) else { return };
@@ -336,6 +341,16 @@ fn mutate_type(r: &mut Report, t: &XmlType, g: &mut Rng, sch: &HashMap<&'static 
     must_refuse(r, t, "second-root-copy", format!("{doc}{doc}").as_bytes(), &bytes);
     must_refuse(r, t, "text-after-root", format!("{doc}junk").as_bytes(), &bytes);
     must_refuse(r, t, "text-before-root", format!("junk{doc}").as_bytes(), &bytes);
+    // characters that many libraries call white space but XML does not (S is #x20 | #x9 | #xD | #xA only)
+    {
+        let (b1, b2) = (*g.pick(NON_XML_BLANKS), *g.pick(NON_XML_BLANKS));
+        must_refuse(r, t, "text-after-root/non-xml-blank", format!("{doc}{b1}").as_bytes(), &bytes);
+        // (U+FEFF as the very first character is the byte order mark of the document, not character data)
+        if !b2.starts_with('\u{feff}') {
+            must_refuse(r, t, "text-before-root/non-xml-blank", format!("{b2}{doc}").as_bytes(), &bytes);
+        }
+        must_refuse(r, t, "text-after-root/non-xml-blank", format!("{doc} {b2}\n").as_bytes(), &bytes);
+    }
     {
         let mut d = doc.clone();
         let new_name = "Zzz";
@@ -396,6 +411,22 @@ fn mutate_type(r: &mut Report, t: &XmlType, g: &mut Rng, sch: &HashMap<&'static 
                 done += 1;
             }
             _ => {}
+        }
+        // character data between the members of a structure (element-only content): XML white space changes nothing,
+        // anything else - a letter, an entity, a blank that is not XML white space - does not fit the type
+        if s.parent.and_then(|p| ty_of[p]).is_some() && g.chance(1, 2) {
+            let mut d = doc.clone();
+            d.insert_str(s.end, *g.pick(&[" ", "\n  ", "\t", "\r\n"]));
+            same_if_accepted(r, t, "xml-whitespace-between-members", d.as_bytes(), &bytes, &want);
+            let mut d = doc.clone();
+            d.insert_str(s.end, *g.pick(NON_XML_BLANKS));
+            must_refuse(r, t, "text-between-members/non-xml-blank", d.as_bytes(), &bytes);
+            let mut d = doc.clone();
+            d.insert_str(s.start, *g.pick(NON_XML_BLANKS));
+            must_refuse(r, t, "text-between-members/non-xml-blank", d.as_bytes(), &bytes);
+            let mut d = doc.clone();
+            d.insert_str(s.end, *g.pick(&["x", "junk", "&amp;", "&#65;", "0", "-"]));
+            must_refuse(r, t, "text-between-members", d.as_bytes(), &bytes);
         }
         // unknown element next to a known one (parent of known struct type)
         if s.parent.and_then(|p| ty_of[p]).is_some() && g.chance(1, 3) {
@@ -607,7 +638,7 @@ pub fn run(ctx: &RunCtx) -> i32 {
     };
     let types = xml_types();
     let n_types = types.len() as u64;
-    let reps = ctx.tier.sz(200, 20_000);
+    let reps = ctx.tier.sz(1000, 20_000);
     let sch = schema();
     let mut total = par_run(ctx.workers, n_types, |j, r| {
         let t = &types[j as usize];
